@@ -1,6 +1,6 @@
 (* C05 - what the generated case files evaluate.  One case = one real models.Item tree given to
    the real preprocess() under one real filter configuration. *)
-From ZenoV Require Import Lib.Harness Scope.Scope.
+From ZenoV Require Import Lib.Harness Scope.Scope Scope.Start.
 Open Scope N_scope.
 
 (* a URL as the implementation holds it after preprocess: parsed.Scheme, parsed.Host,
@@ -18,6 +18,8 @@ Record onode := ON {
 
 Record scase := SC {
   s_cfg : opcfg;                     (* the operator's lists as assigned to the config *)
+  s_dc : list bytes;                 (* --domains-crawl as assigned to the config (handed to domainscrawl by GenerateCrawlConfig) *)
+  s_dcm : list N;                    (* the nodes whose String() the real domainscrawl.Match knows (observed; the decision must not depend on it) *)
   s_files : list bytes;              (* the --exclusion-file files written for the case: their CONTENT, byte for byte *)
   s_eff : list bytes;                (* config.Get().ExcludeHosts after GenerateCrawlConfig() *)
   s_eff_re : list bytes;             (* config.Get().ExclusionRegexes after it: each expression's String() *)
@@ -36,7 +38,8 @@ Definition nv_of (c : scase) (id : N) : norm_view :=
   match assoc id (s_nv c) with Some v => v | None => NVErr end.
 
 Definition case_oracle (c : scase) : oracle :=
-  scope_oracle (s_cfg c) (nv_of c) (fun id => memN id (s_seen c)) (fun id => memN id (s_reqfail c)).
+  scope_oracle_x (OCX (s_cfg c) (s_dc c)) (fun id => memN id (s_dcm c)) (nv_of c)
+                 (fun id => memN id (s_seen c)) (fun id => memN id (s_reqfail c)).
 
 Definition info_eqb (a c : info) : bool :=
   N.eqb (nid a) (nid c) && N.eqb (nurl a) (nurl c) && status_eqb (nst a) (nst c)
@@ -150,3 +153,52 @@ Definition a_mon_in_scope (c : arcase) : bool :=
 Definition a_mon_shape (c : arcase) : bool :=
   forallb (fun v => shape_ok (colon (u_scheme v)) (u_hostname v)) (a_arrivals c).
 Definition amons (l : list arcase) := mon_idx [a_mon_in_scope; a_mon_shape] l.
+
+(* ---- the start-up: GenerateCrawlConfig with exclusion files that may fail to be read ---------- *)
+(* One case = one list of --exclusion-file arguments (local paths and http URLs served by a
+   scripted in-process server) given to the REAL config.GenerateCrawlConfig; when it returns
+   without error (the crawl would start) the real preprocess() runs on probe URLs. *)
+Record xfile := XF {
+  xf_fetch : fetch;            (* what the script makes the one read yield: the content, or a failure *)
+  xf_lines : list bytes        (* the lines of the file the operator named (the driver's own splitting of the
+                                  content the server holds / the path would hold), readable or not *)
+}.
+Record probe := PR {
+  p_text : bytes;              (* URL.String() of the probe *)
+  p_req : bool;                (* a request was attached by preprocess() *)
+  p_bits : list bool           (* the driver's own compilation of every line of every named file, on the text *)
+}.
+Record cfcase := CF {
+  cf_files : list xfile;
+  cf_bad : list bytes;         (* oracle: the lines Go's regexp refuses to compile *)
+  cf_started : bool;           (* GenerateCrawlConfig returned nil (no error, no panic) *)
+  cf_eff : list bytes;         (* config.Get().ExclusionRegexes after it: each expression's String() *)
+  cf_probes : list probe
+}.
+
+(* a run of [n] bytes "x" (a line at the scanner's limit, written compactly in the case files) *)
+Definition xrun (n : N) : bytes := repeat "x"%char (N.to_nat n).
+
+Definition cf_compiles (c : cfcase) (l : bytes) : bool := negb (memb l (cf_bad c)).
+
+Definition cf_diff_case (c : cfcase) : bool :=
+  match load_files (cf_compiles c) (map xf_fetch (cf_files c)) with
+  | None => cf_started c
+  | Some regs => negb (cf_started c) || negb (bytes_list_eqb regs (cf_eff c))
+  end.
+Definition cfdiffs (l : list cfcase) := bad_idx cf_diff_case l.
+
+Definition fetch_ok (f : fetch) : bool := match f with FOk _ => true | FFail => false end.
+
+(* 0: a crawl that starts has read every file the operator named, and every line of every one of
+   them is among the effective expressions *)
+Definition cf_mon_all_in_force (c : cfcase) : bool :=
+  implb (cf_started c)
+        (forallb (fun f => fetch_ok (xf_fetch f) && forallb (fun l => memb l (cf_eff c)) (xf_lines f)) (cf_files c)).
+
+(* 1: no request for a URL that a line of a named file matches; nothing is requested by a crawl
+   that does not start *)
+Definition cf_mon_no_request (c : cfcase) : bool :=
+  forallb (fun p => implb (p_req p) (cf_started c && negb (existsb (fun b => b) (p_bits p)))) (cf_probes c).
+
+Definition cfmons (l : list cfcase) := mon_idx [cf_mon_all_in_force; cf_mon_no_request] l.
